@@ -16,6 +16,7 @@ stdin: JSON {mode, cases}; stdout: last line JSON results.  Idents (hex of id(ob
 to 1, 2, 3 ... in order of first appearance; referents are kept alive so that an address is
 never reused inside a case."""
 import copy
+import gc
 import hmac
 import json
 import os
@@ -109,6 +110,8 @@ def enc_val(v, meth=None):
         return ['b', v]
     if isinstance(v, int):
         return ['i', v]
+    if meth == 'items' and isinstance(v, list):       # pickled dict_items arrive as a list of tuples
+        return ['ps', [[a, b] for a, b in v]]
     if isinstance(v, (list, type({}.keys()), type({}.values()))):
         return ['l', list(v)]
     if isinstance(v, type({}.items())):
@@ -421,23 +424,233 @@ def run_client_case(case):
     for op in case:
         n0 = len(ids.mid)
         obs = client_op(m, srv, ids, proxies, op)
+        gc.collect()                   # finalisers of unreachable proxies run here, in this thread
         ids.scan()
         newid = len(ids.mid) - 1 if len(ids.mid) > n0 else 0
         out.append(dict(obs=obs, newid=newid, snap=ids.snapshot(), numobj=m._number_of_objects()))
     # drop everything: what stays in the table now has no proxy anywhere
     del proxies[:]
+    gc.collect()
     out.append(dict(final_objects=len(srv.id_to_obj) - 1, final_refcounts=len(srv.id_to_refcount)))
-    srv.listener.close()
+    # the accepter thread cannot be stopped (`while True` + `except OSError: continue` would spin
+    # on a closed listener): leave it blocked in accept(); one idle thread + one fd per case
+    return out
+
+
+# ------------------------------------------------------------------ procs mode
+def worker_main(conn, inherited):
+    """command loop of a client process; `inherited` = proxies that came with the fork"""
+    process.current_process()       # authkey inherited from the parent
+    local = list(inherited)
+    del inherited[:]               # (this process's copy of the parent's list)
+    del inherited
+    gc.disable()
+    while True:
+        cmd = conn.recv()
+        k = cmd[0]
+        if k == 'recv':
+            res, v = client_outcome(lambda: pickle.loads(cmd[1]))
+            if isinstance(v, BaseProxy):
+                local.append(v)
+            v = None
+            conn.send(res)
+        elif k == 'dumps':
+            conn.send(pickle.dumps(local[cmd[1]]))
+        elif k == 'drop':
+            del local[cmd[1]]
+            gc.collect()
+            conn.send(['ok'])
+        elif k == 'call':
+            _, idx, meth, args = cmd
+            res, v = client_outcome(lambda: local[idx]._callmethod(meth, tuple(dec_arg(a) for a in args)))
+            if res[0] == 'ok':
+                if isinstance(v, BaseProxy):
+                    local.append(v)
+                    res = ['proxy', v._token.id, v._token.typeid]
+                else:
+                    res = ['ret', enc_val(v, meth)]
+            v = None
+            gc.collect()
+            conn.send(res)
+        elif k == 'ping':
+            conn.send(['ok'])
+        elif k == 'exit':
+            conn.send(['ok'])
+            conn.close()
+            sys.exit(0)
+
+
+class RemoteIds:
+    """ident <-> small integer from the manager's debug_info(); an ident that left the table is
+    forgotten (the address may be reused by a later referent)"""
+
+    def __init__(self, m):
+        self.m = m
+        self.mid = {}
+        self.next = 1
+
+    def snapshot(self):
+        txt = self.m._debug_info()
+        ents = re.findall(r'^  (\w+):\s+refcount=(-?\d+)\n    (.*)$', txt, re.M)
+        live = set(e[0] for e in ents)
+        for ident in list(self.mid):
+            if ident not in live:
+                del self.mid[ident]
+        out = []
+        for ident, rc, rep in ents:
+            if ident not in self.mid:
+                self.mid[ident] = self.next
+                self.next += 1
+            out.append([self.mid[ident], int(rc), parse_str(rep)])
+        return sorted(out, key=lambda e: e[0])
+
+
+def run_procs_case(case):
+    import billiard
+    ctx = billiard.get_context('fork')
+    process.current_process().authkey = KEY
+    m = InprocManager(authkey=KEY, ctx=ctx)
+    m.start()
+    ids = RemoteIds(m)
+    workers = {}
+
+    def spawn(pid, inherited):
+        a, b = ctx.Pipe(duplex=True)
+        pr = ctx.Process(target=worker_main, args=(b, inherited))
+        pr.daemon = True
+        pr.start()
+        b.close()
+        workers[pid] = (pr, a)
+
+    for pid in (11, 12):                 # started while no proxy exists
+        spawn(pid, [])
+    mine = []                            # the parent's own proxies (pid 10)
+    handles = []                         # owner pid of every live proxy, creation order
+    out = []
+
+    def local_index(k):
+        return sum(1 for h in handles[:k] if h == handles[k])
+
+    def ask(pid, cmd):
+        pr, c = workers[pid]
+        c.send(cmd)
+        if not c.poll(20):
+            raise RuntimeError('worker %s does not answer %r' % (pid, cmd[0]))
+        return c.recv()
+
+    try:
+        for op in case:
+            kind = op[0]
+            n_before = ids.next
+            obs = ['noop']
+            if kind == 'create':
+                _, pid, typ, args = op
+                res, v = client_outcome(lambda: _do_create(m, typ, [dec_arg(a, typ) for a in args]))
+                if isinstance(v, BaseProxy):
+                    mine.append(v)
+                    handles.append(10)
+                v = None
+                obs = res
+            elif kind == 'copy':
+                _, k, pid = op
+                if k < len(handles) and (pid == 10 or pid in workers):
+                    src = handles[k]
+                    blob = pickle.dumps(mine[local_index(k)]) if src == 10 else ask(src, ('dumps', local_index(k)))
+                    if pid == 10:
+                        res, v = client_outcome(lambda: pickle.loads(blob))
+                        if isinstance(v, BaseProxy):
+                            mine.append(v)
+                        v = None
+                    else:
+                        res = ask(pid, ('recv', blob))
+                    if res[0] == 'ok':
+                        handles.append(pid)
+                    obs = res
+            elif kind == 'drop':
+                k = op[1]
+                if k < len(handles):
+                    if handles[k] == 10:
+                        del mine[local_index(k)]
+                        gc.collect()
+                    else:
+                        ask(handles[k], ('drop', local_index(k)))
+                    handles.pop(k)
+                    obs = ['ok']
+            elif kind == 'call':
+                _, k, meth, args = op
+                if k < len(handles):
+                    if handles[k] == 10:
+                        res, v = client_outcome(
+                            lambda: mine[local_index(k)]._callmethod(meth, tuple(dec_arg(a) for a in args)))
+                        if res[0] == 'ok':
+                            if isinstance(v, BaseProxy):
+                                mine.append(v)
+                                res = ['proxy', v._token.id, v._token.typeid]
+                            else:
+                                res = ['ret', enc_val(v, meth)]
+                        v = None
+                    else:
+                        res = ask(handles[k], ('call', local_index(k), meth, args))
+                    if res[0] == 'proxy':
+                        handles.append(handles[k])
+                    obs = res
+            elif kind == 'fork':              # a new client process forked while proxies exist
+                pid = op[1]
+                spawn(pid, mine)
+                ask(pid, ('ping',))          # its after-fork increfs are done
+                handles.extend([pid] * len(mine))
+                obs = ['ok']
+            elif kind == 'exit':              # orderly exit: finalisers release every proxy
+                pid = op[1]
+                ask(pid, ('exit',))
+                workers[pid][0].join(20)
+                del workers[pid]
+                handles[:] = [h for h in handles if h != pid]
+                obs = ['ok']
+            elif kind == 'intruder':
+                try:
+                    if op[1] == 'wrong_key':
+                        c = connection.Client(m.address, authkey=b'not-the-key')
+                    else:
+                        c = connection.Client(m.address)
+                    managers.dispatch(c, None, 'decref', (next(iter(ids.mid), 'x'),))
+                    obs = ['fail', 'E_Other:intruder-was-served']
+                except Exception:
+                    obs = ['ok']
+            snap = ids.snapshot()
+            if obs[0] == 'proxy':
+                obs = ['proxy', ids.mid.get(obs[1], -1), obs[2]]
+            newid = ids.next - 1 if ids.next > n_before else 0
+            out.append(dict(obs=obs, newid=newid, snap=snap, numobj=m._number_of_objects(),
+                            owners=list(handles)))
+        # release everything, orderly
+        for pid in list(workers):
+            ask(pid, ('exit',))
+            workers[pid][0].join(20)
+        del mine[:]
+        gc.collect()
+        out.append(dict(final_objects=m._number_of_objects(), final_refcounts=len(ids.snapshot())))
+    finally:
+        for pr, c in workers.values():
+            if pr.is_alive():
+                pr.terminate()
+        m.shutdown()
     return out
 
 
 def main():
+    # server threads and clients share this process: a cyclic-GC run inside the accepter thread
+    # could finalise a proxy there (its _decref connects to the server -> deadlock); collect
+    # explicitly in the client thread instead
+    gc.disable()
     req = json.load(sys.stdin)
     mode = req['mode']
     if mode == 'server':
         res = [run_server_case(c) for c in req['cases']]
     elif mode == 'client':
         res = [run_client_case(c) for c in req['cases']]
+    elif mode == 'procs':
+        res = [run_procs_case(c) for c in req['cases']]
     else:
         raise SystemExit('unknown mode')
     sys.stdout.flush()
